@@ -124,6 +124,7 @@ def opNode : Op V → Nat
   | .arrayAdd i _ _ => i
   | .arrayRemove i _ _ => i
   | .read i => i
+  | .rejectedMessage p => p
 
 /-- what a `step` is: a parameter update, a flagged re-wiring, an evaluation, or a rejected call -/
 inductive StepKind (F : Nat) (g : Graph V) : Op V → Graph V × Log → Prop
@@ -176,6 +177,9 @@ theorem step_kind (F : Nat) (g : Graph V) (op : Op V) : StepKind F g op (step F 
         simp only [Option.map_some, Option.getD_some]
         exact .rewire (by intro j h; cases h) (by intro p v h; cases h) rfl hi rfl rfl rfl rfl
   | read i => exact .read
+  | rejectedMessage p =>
+    simp only [step, step?]
+    exact .rejected (by intro j h; cases h) (by intro _ _ _ _ h; cases h)
 
 /-- one API call preserves the invariant as long as the graph stays acyclic -/
 theorem step_inv {g : Graph V} (hinv : Inv F g) (op : Op V) (hac : Acyclic F (step F g op).1) :
@@ -318,6 +322,9 @@ theorem step_ranked {rank : Nat → Nat} {g : Graph V} (hwf : Ranked rank F g) (
   | read i =>
     rw [show step F g (.read i) = Eval F g i by simp [step, step?]]
     exact hwf.of_static (Eval_static F g i)
+  | rejectedMessage p =>
+    simp only [step, step?]
+    exact hwf
 
 /-- histories that respect ONE ranking (e.g. "every dependency has a smaller id") are valid -/
 theorem valid_of_fixed_rank {rank : Nat → Nat} {g : Graph V} (hwf : Ranked rank F g) (ops : List (Op V))
